@@ -47,6 +47,13 @@ def _h_to_bytes(interp, args, kwargs, st, node):
     a = args[0]
     if isinstance(a, bytes):
         return a
+    if isinstance(a, str):
+        if a == '':
+            return b''
+        try:
+            return bytes.fromhex(a)
+        except ValueError:
+            return a.encode('utf8')
     if isinstance(a, S) and a.ty == 'bytes':
         return a
     return S(('to_bytes', term(a)), 'bytes')
